@@ -108,7 +108,7 @@ Lemma apply_op_length inplace st x : List.length st <= List.length (apply_op inp
 Proof.
   destruct x as [o m n|o g i b|o ov|o g sel|o g i m|o k]; simpl; unfold upd_store;
     rewrite ?upd_nth_length; auto.
-  - destruct m as [d| |]; [destruct inplace|..]; unfold upd_store; rewrite ?upd_nth_length; auto.
+  - destruct m as [d| | |]; [destruct inplace|..]; unfold upd_store; rewrite ?upd_nth_length; auto.
   - destruct (nth_error st o); [rewrite app_length; simpl; lia|auto].
 Qed.
 
@@ -125,7 +125,7 @@ Lemma apply_op_frame inplace st x o :
 Proof.
   intros Ho W.
   destruct x as [o' m n|o' g i b|o' ov|o' g sel|o' g i m|o' k]; simpl in *; unfold upd_store.
-  - destruct m as [d| |]; auto. destruct inplace; simpl in W; auto.
+  - destruct m as [d| | |]; auto. destruct inplace; simpl in W; auto.
     apply nth_error_upd_nth_other. intro; subst. rewrite Nat.eqb_refl in W. discriminate.
   - apply nth_error_upd_nth_other. intro; subst. rewrite Nat.eqb_refl in W. discriminate.
   - apply nth_error_upd_nth_other. intro; subst. rewrite Nat.eqb_refl in W. discriminate.
@@ -149,7 +149,7 @@ Qed.
    pipeline without growing models *)
 Lemma run_copies_leave_store inplace st o m n :
   (forall d, m <> Exposure d) -> apply_op inplace st (ORun o m n) = st.
-Proof. intro H. destruct m as [d| |]; [contradiction (H d); reflexivity|reflexivity|reflexivity]. Qed.
+Proof. intro H. destruct m as [d| | |]; [contradiction (H d); reflexivity|reflexivity..]. Qed.
 
 Lemma run_exposure_no_grow inplace st o d n p :
   nth_error st o = Some p -> no_grow p -> apply_op inplace st (ORun o (Exposure d) n) = st.
@@ -270,6 +270,8 @@ Definition run_matches (run : bool -> pipeline -> nat -> list call * list captur
   | Observation runs, Ran t _ =>
       t = flat_map (fun os => map obs_of (fst (run false (apply_overrides (r_cfg r) os) (r_steps r)))) runs
   | Calibration, Ran _ _ => True
+  | ObservationDask runs, Ran t _ =>
+      covers_runs (map (fun os => map obs_of (fst (run false (apply_overrides (r_cfg r) os) (r_steps r)))) runs) t = true
   | _, Failed _ => False
   end.
 
@@ -277,12 +279,10 @@ Lemma agrees_run_matches run prior p n m o :
   agrees_run false run prior p n m o = true ->
   run_matches run {| r_obj := 0; r_cfg := p; r_mode := m; r_steps := n |} o.
 Proof.
-  intro H. unfold run_matches. simpl. destruct m as [d|runs|], o as [t nodes|cls]; auto.
+  intro H. unfold run_matches. simpl. destruct m as [d|runs| |runs], o as [t nodes|cls]; auto;
+    try (simpl in H; discriminate).
   - eapply agrees_run_exposure. exact H.
-  - simpl in H. discriminate.
   - eapply agrees_run_observation. exact H.
-  - simpl in H. discriminate.
-  - simpl in H. discriminate.
 Qed.
 
 Lemma Forall2_weaken {A B} (P Q : A -> B -> Prop) l l' :
